@@ -1,5 +1,5 @@
 """mapproxy/cache/path.py (_path_component, dimensions_part) and mapproxy/cache/base.py (TileLocker.lock_filename)
--> coq/gen/Gen_pathconf.v   (property C09)
+and mapproxy/cache/file.py (FileCache.tile_location / level_location) -> coq/gen/Gen_pathconf.v   (property C09)
 
 * `_path_component`: the table of (character, replacement) pairs of the `for ... in (...)` loop is extracted, in
   order, as `gen_escapes : list (Z * list Z)` (code points).  The loop must have exactly the shape
@@ -10,6 +10,10 @@
 * `dimensions_part` and `TileLocker.lock_filename` are not translated (dict / sort / lambda): their ASTs are pinned.
   The string constants the hand-written model PathConf.v uses ('dim_', '-', 'default', '.lck') are extracted from
   the pinned positions and emitted as `gen_dim_prefix`, `gen_dash`, `gen_default`, `gen_lck`.
+
+* `FileCache.tile_location` / `FileCache.level_location` (mapproxy/cache/file.py) are pinned to "delegate to the function chosen
+  by location_funcs with self.cache_dir": no path construction of their own (statements before the return of tile_location may
+  only bind new local names).
 
 Fail closed: any other shape raises Unsupported (the check then reports a broken translator obligation).
 """
@@ -109,6 +113,40 @@ LOCK_PINNED = (
     "keywords=[])), op=Add(), right=Constant(value=@2))], keywords=[]))]")
 
 
+FILE_TILE_RETURN = (
+    "Return(value=Call(func=Attribute(value=Name(id='self', ctx=Load()), attr='_tile_location', ctx=Load()), args=[Name(id='tile', ctx=Load()), "
+    "Attribute(value=Name(id='self', ctx=Load()), attr='cache_dir', ctx=Load()), Attribute(value=Name(id='self', ctx=Load()), attr='file_ext', ctx=Load())], "
+    "keywords=[keyword(arg='create_dir', value=Name(id='create_dir', ctx=Load())), keyword(arg='dimensions', value=Name(id='dimensions', ctx=Load())), "
+    "keyword(arg='directory_permissions', value=Attribute(value=Name(id='self', ctx=Load()), attr='directory_permissions', ctx=Load()))]))")
+
+FILE_LEVEL_PINNED = (
+    "[Return(value=Call(func=Attribute(value=Name(id='self', ctx=Load()), attr='_level_location', ctx=Load()), args=[Name(id='level', ctx=Load()), "
+    "Attribute(value=Name(id='self', ctx=Load()), attr='cache_dir', ctx=Load()), Name(id='dimensions', ctx=Load())], keywords=[]))]")
+
+
+def file_tile_location_pinned(fn):
+    """FileCache.tile_location must end in `return self._tile_location(tile, self.cache_dir, self.file_ext, create_dir=create_dir,
+    dimensions=dimensions, directory_permissions=self.directory_permissions)`: the path is built by cache/path.py from the configured
+    cache_dir and nothing else.  Statements before it (today: the unused dimensions_str / cache_dir computation) may not rebind the
+    parameters, assign attributes, return or raise."""
+    if [a.arg for a in fn.args.args] != ['self', 'tile', 'create_dir', 'dimensions'] or fn.decorator_list:
+        raise Unsupported('FileCache.tile_location: unexpected signature')
+    b = _body(fn)
+    if not b or ast.dump(b[-1]) != FILE_TILE_RETURN:
+        raise Unsupported('FileCache.tile_location no longer returns self._tile_location(tile, self.cache_dir, self.file_ext, ...): '
+                          + (ast.dump(b[-1])[:400] if b else 'empty body'))
+    protected = {'self', 'tile', 'create_dir', 'dimensions'}
+    for st in b[:-1]:
+        for n in ast.walk(st):
+            if isinstance(n, (ast.Return, ast.Raise, ast.Delete, ast.Global, ast.Nonlocal, ast.Yield, ast.YieldFrom, ast.NamedExpr,
+                              ast.FunctionDef, ast.ClassDef, ast.Lambda, ast.Import, ast.ImportFrom, ast.Try, ast.With)):
+                raise Unsupported('FileCache.tile_location: statement %s before the return' % type(n).__name__)
+            if isinstance(n, (ast.Attribute, ast.Subscript)) and isinstance(n.ctx, (ast.Store, ast.Del)):
+                raise Unsupported('FileCache.tile_location: assignment to an attribute / item before the return')
+            if isinstance(n, ast.Name) and isinstance(n.ctx, (ast.Store, ast.Del)) and n.id in protected:
+                raise Unsupported('FileCache.tile_location: parameter %s is rebound before the return' % n.id)
+
+
 class _Holes(ast.NodeTransformer):
     """replace every str constant by a numbered hole, remembering the values"""
 
@@ -156,6 +194,13 @@ def generate(repo):
     lvals = pinned(lfn, LOCK_PINNED, 'TileLocker.lock_filename')
     if len(lvals) != 3 or lvals[0] != lvals[1] or lvals[0] != dvals[1]:
         raise Unsupported('lock_filename: unexpected constants %r' % (lvals,))
+    ftree = ast.parse(open(os.path.join(repo, 'mapproxy/cache/file.py')).read())
+    file_tile_location_pinned(_func(ftree, 'tile_location', cls='FileCache'))
+    flfn = _func(ftree, 'level_location', cls='FileCache')
+    if [a.arg for a in flfn.args.args] != ['self', 'level', 'dimensions']:
+        raise Unsupported('FileCache.level_location: unexpected signature')
+    if pinned(flfn, FILE_LEVEL_PINNED, 'FileCache.level_location'):
+        raise Unsupported('FileCache.level_location: unexpected constants')
     out = ['(* GENERATED by translator/specs/pathconf.py from mapproxy/cache/path.py and mapproxy/cache/base.py.  Do not edit: rewritten on every run. *)',
            'From Coq Require Import ZArith List.', 'Import ListNotations.', 'Local Open Scope Z_scope.', '',
            '(* _path_component: for char, escaped in (...): name = name.replace(char, escaped) *)',
@@ -166,5 +211,8 @@ def generate(repo):
            'Definition gen_dash : Z := %d.' % ord(dvals[1]),
            'Definition gen_default : list Z := %s.' % _cps(dvals[2]), '',
            '(* TileLocker.lock_filename (AST pinned): lock_cache_id + <gen_dash> + <gen_dash>.join(map(str, tile.coord)) + <gen_lck> *)',
-           'Definition gen_lck : list Z := %s.' % _cps(lvals[2]), '']
+           'Definition gen_lck : list Z := %s.' % _cps(lvals[2]), '',
+           '(* mapproxy/cache/file.py (ASTs pinned): FileCache.tile_location = self._tile_location(tile, self.cache_dir, self.file_ext, ...),',
+           '   FileCache.level_location = self._level_location(level, self.cache_dir, dimensions) *)',
+           'Definition gen_file_cache_delegates_to_path_py : bool := true.', '']
     return '\n'.join(out)
